@@ -10,6 +10,7 @@ import (
 	"io"
 	"log/slog"
 	"runtime"
+	"sort"
 	"strings"
 	"testing"
 	"testing/synctest"
@@ -81,11 +82,15 @@ type sim struct {
 	timedBlockedAt time.Time
 	timedBlocked   bool
 
-	skips    map[string]int
-	labels   map[string]bool
-	fail     *smFailure
-	opIdx    int
-	walDirty bool // the write-ahead file currently names a finding for the op in flight
+	skips        map[string]int
+	labels       map[string]bool
+	fail         *smFailure
+	opIdx        int
+	crashHandled bool
+	finSnap      map[uint64]string // finalization store content at the crash
+	crashInfo    string
+	deadEnd      string // why the epilogue could not bring the machine in sync with the mirror
+	walDirty     bool   // the write-ahead file currently names a finding for the op in flight
 }
 
 func (s *sim) skip(why string) { s.skips[why]++ }
@@ -272,7 +277,7 @@ func (s *sim) settle() {
 			w.mu.Unlock()
 			s.pendingEnt = rec
 			s.timedBlocked = false
-			s.model.onEntranceReq(rec.idx, re.H, re.R)
+			s.model.onEntranceReq(rec.idx, re.H, re.R, re.Actions != nil)
 			if cap(re.Response) != 1 {
 				s.model.failf("harness", "entrance-response-chan", "", "response channel capacity %d", cap(re.Response))
 			}
@@ -301,6 +306,9 @@ func (s *sim) settle() {
 			for e.applied < len(e.actions) {
 				a := e.actions[e.applied]
 				e.applied++
+				if len(a.PH.Header.Hash) > 0 {
+					s.model.checkPHSets("own proposal", a.PH)
+				}
 				h, r, _ := s.smPos()
 				if why := s.mm.ownAction(e, a, h, r); why != "" {
 					s.skip("own-action-" + why)
@@ -312,6 +320,59 @@ func (s *sim) settle() {
 		}
 	}
 	s.digest()
+	if s.w.crashed && !s.crashHandled {
+		s.crashRestart()
+	}
+}
+
+func (s *sim) finDigest(h uint64) string {
+	r, bh, vs, app, err := s.fStore.inner.LoadFinalizationByHeight(context.Background(), h)
+	if err != nil {
+		return ""
+	}
+	var sb strings.Builder
+	fmt.Fprintf(&sb, "r%d|%x|%x|%x|%x|", r, bh, app, vs.PubKeyHash, vs.VotePowerHash)
+	for _, v := range vs.Validators {
+		fmt.Fprintf(&sb, "%x:%d,", v.PubKey.PubKeyBytes(), v.Power)
+	}
+	return sb.String()
+}
+
+// crashRestart: the kernel is parked inside the store write chosen as crash
+// point. The incarnation is discarded and a new machine is built on the same stores.
+func (s *sim) crashRestart() {
+	s.crashHandled = true
+	w := s.w
+	h, r, _ := s.smPos()
+	s.crashInfo = fmt.Sprintf("%s in %d/%d (%s)", w.crashKind, h, r, s.model.where())
+	s.labels["crash-after-"+w.crashKind] = true
+	if r >= 1 {
+		s.labels["crash-in-round>=1"] = true
+	}
+	s.finSnap = map[uint64]string{}
+	for fh := w.initH - 1; fh < w.initH+64; fh++ {
+		if d := s.finDigest(fh); d != "" {
+			s.finSnap[fh] = d
+		}
+	}
+	s.teardown()
+	w.mu.Lock()
+	w.inc++
+	w.evLocked("crash-restart", h, r, w.crashKind, nil, nil)
+	w.mu.Unlock()
+	s.mm.restart()
+	s.finReqs = nil
+	s.newIncarnation()
+	s.settle()
+}
+
+// checkFinSnap (C10): finalizations stored before the crash are unchanged.
+func (s *sim) checkFinSnap() {
+	for fh, d := range s.finSnap {
+		if now := s.finDigest(fh); now != d {
+			s.model.failf("C10", "finalization-changed", "", "stored finalization of height %d differs after the restart:\n before %s\n after  %s", fh, d, now)
+		}
+	}
 }
 
 // digest feeds strategy calls and log events made since the last look to the oracles.
@@ -330,6 +391,9 @@ func (s *sim) digest() {
 // judge compares model and machine when the kernel is idle and collects failures.
 func (s *sim) judge() {
 	m := s.model
+	if s.finSnap != nil {
+		s.checkFinSnap()
+	}
 	if s.fail == nil && len(m.fails) == 0 {
 		canCompare := s.pendingEnt != nil
 		if !canCompare {
@@ -1117,7 +1181,7 @@ func (s *sim) exec(op smOp) {
 	case "time":
 		s.opTime(op.A)
 	case "restart":
-		if s.mode == "C02" {
+		if s.mode == "C02" || s.mode == "C10" || s.mode == "C07" {
 			s.opRestart()
 		} else {
 			s.skip("restart-not-in-domain")
@@ -1139,7 +1203,93 @@ func (s *sim) exec(op smOp) {
 	}
 }
 
+// epilogue delivers everything that is pending, in protocol order, until the
+// machine is in sync with the harness mirror or can not get further.
+func (s *sim) epilogue() {
+	total := func() int {
+		n := 0
+		for _, v := range s.skips {
+			n += v
+		}
+		return n
+	}
+	for i := 0; i < 60 && s.fail == nil; i++ {
+		before := total()
+		switch {
+		case s.pendingEnt != nil:
+			s.opEntrance()
+		case s.stratPending() != nil:
+			s.opAnswer(0) // Consider: not ready; Choose / Decide: nil
+		case s.hasFinReq() && s.idle():
+			s.opFinalize()
+		case s.mm.output().ok && s.idle():
+			s.opView()
+		case s.outstandingKind() == tkCommitWait && s.idle():
+			s.opFire()
+		default:
+			return
+		}
+		s.settle()
+		s.judge()
+		if total() != before {
+			// the step was refused (mirror would panic, known finding excluded, kernel busy)
+			s.deadEnd = "step-refused"
+			return
+		}
+	}
+	s.deadEnd = "epilogue-budget"
+}
+
+func (s *sim) synced() bool {
+	h, r, ok := s.smPos()
+	return ok && s.pendingEnt == nil && s.stratPending() == nil && !s.hasFinReq() && !s.mm.output().ok &&
+		s.model.phase == phLive && h == s.mm.voting.H && r == s.mm.voting.R
+}
+
+func (m *mirror) digest() string {
+	var sb strings.Builder
+	fmt.Fprintf(&sb, "voting %d/%d|", m.voting.H, m.voting.R)
+	hs := make([]uint64, 0, len(m.store))
+	for h := range m.store {
+		hs = append(hs, h)
+	}
+	sort.Slice(hs, func(i, j int) bool { return hs[i] < hs[j] })
+	for _, h := range hs {
+		fmt.Fprintf(&sb, "%d=%x@%d,", h, m.store[h].cand.hash, m.store[h].proof.Round)
+	}
+	for _, v := range []*mmView{m.committing, m.voting, m.next} {
+		if v == nil {
+			sb.WriteString("|-")
+			continue
+		}
+		fmt.Fprintf(&sb, "|%d/%d phs=%d", v.H, v.R, len(v.PHs))
+		for _, mp := range []map[string]uint64{v.Prevotes, v.Precommits} {
+			keys := make([]string, 0, len(mp))
+			for k := range mp {
+				keys = append(keys, k)
+			}
+			sort.Strings(keys)
+			for _, k := range keys {
+				fmt.Fprintf(&sb, " %x:%b", k, mp[k])
+			}
+			sb.WriteString(";")
+		}
+	}
+	return sb.String()
+}
+
 type smResult struct {
+	synced                                 bool
+	posH                                   uint64
+	posR                                   uint32
+	mmDigest                               string
+	deadEnd                                string
+	writes                                 int          // eligible store writes of the whole run
+	midWrites                              map[int]bool // eligible write ordinals followed by another store write of the same transition
+	writeRound                             map[int]uint32
+	crashed                                bool
+	crashInfo                              string
+	entrSeq                                string
 	fail                                   *smFailure
 	labels                                 []string
 	skips                                  map[string]int
@@ -1160,6 +1310,7 @@ func runSim(outer *testing.T, st *vk.Stats, c smCase, mode string) (res smResult
 	}()
 	synctest.Test(outer, func(t *testing.T) {
 		w := newWorld(c.Cfg)
+		w.crashAt = c.Crash
 		s := &sim{st: st, c: c, mode: mode, w: w, skips: map[string]int{}, labels: map[string]bool{}}
 		s.log = slog.New(slog.NewTextHandler(io.Discard, &slog.HandlerOptions{Level: slog.Level(100)}))
 		s.mm = newMirror(w)
@@ -1195,7 +1346,40 @@ func runSim(outer *testing.T, st *vk.Stats, c smCase, mode string) (res smResult
 				}
 				res.opsRun++
 			}
+			if s.fail == nil && (mode == "C10" || mode == "C07") {
+				s.epilogue()
+			}
 		}()
+		res.synced = s.fail == nil && s.synced()
+		res.posH, res.posR, _ = s.smPos()
+		res.mmDigest = s.mm.digest()
+		res.deadEnd = s.deadEnd
+		res.crashed = w.crashed
+		res.crashInfo = s.crashInfo
+		res.writes = w.writes
+		res.midWrites, res.writeRound = map[int]bool{}, map[int]uint32{}
+		{
+			last := 0 // eligible ordinal of the latest store write of the current transition
+			for _, e := range w.log {
+				switch {
+				case e.Elig > 0 || (strings.HasPrefix(e.Kind, "save-") && e.Err == "") || (e.Kind == "set-hr" && e.Err == ""):
+					if last > 0 {
+						res.midWrites[last] = true
+					}
+					last = e.Elig
+					if e.Elig > 0 && e.Epoch >= 0 && e.Epoch < len(w.entrances) {
+						res.writeRound[e.Elig] = w.entrances[e.Epoch].re.R
+					}
+				case e.Kind == "view" || e.Kind == "view-jump-only" || e.Kind == "entrance-vrv" || e.Kind == "entrance-ch" ||
+					e.Kind == "timer-fire" || e.Kind == "height-committed" || e.Kind == "fin-resp" || e.Kind == "proposal-sent" ||
+					e.Kind == "block-data" || strings.HasPrefix(e.Kind, "answer-") || e.Kind == "restart":
+					last = 0
+				}
+			}
+		}
+		for _, e := range w.entrances {
+			res.entrSeq += fmt.Sprintf("%d/%d ", e.re.H, e.re.R)
+		}
 		s.teardown()
 		s.rootCancel()
 
